@@ -750,7 +750,7 @@ class SimContext:
         })
         import re
         self.sim.rec("loop-exception", type(exc).__name__ if exc is not None else None,
-                     re.sub(r"0x[0-9a-fA-F]+", "0x?", str(context.get("message")))[:80])   # no addresses in the log
+                     re.sub(r"[0-9a-fA-F]{6,}", "?", str(context.get("message")).split("(")[0])[:80])  # no addresses
 
     def _patch_reader(self):
         import asyncio.streams as st
